@@ -438,3 +438,180 @@ def r5(R):
     for v in vs:
         R.violation((f.module.relpath, f.qualname, 'open transaction'),
                     v.message, g, v.path)
+
+
+# ------------------------------------------------------------------ C17.R6
+TRI = 'ZODB.FileStorage.FileStorage.TransactionRecordIterator'
+
+
+@rule('C17.R6', 'a record the iterator yields through a backpointer has had '
+      'its backpointer target validated against the record\'s oid',
+      min_instances=1)
+def r6(R):
+    cls = R.prog.cls(TRI)
+    f = R.method(cls, '__next__')
+    g, b, F = R.cfg(f, cls, max_depth=3)
+    seen = [0, 0]
+
+    def edge(node, st, lab, tgt):
+        loaded, valid = st
+        fr = node.frame
+        if fr is not None and fr.func.name == '_read_data_header' and \
+                'oid' in fr.bindings:
+            e, pf, how = fr.bindings['oid']
+            if how != 'default' and e is not None and not (
+                    isinstance(e, ast.Constant) and e.value is None):
+                pv = provenance(e, pf, F)
+                if prov_has(pv, 'attr', lambda a: a == 'oid'):
+                    seen[1] += 1
+                    valid = True
+        if lab not in ('e', 'eb') and fr is not None and fr.parent is None:
+            for op in F.ops(node):
+                if op.kind == 'call' and op.path and \
+                        op.path[-1].startswith('_loadBack'):
+                    loaded = True
+        return (loaded, valid)
+
+    def at(node, st):
+        loaded, valid = st
+        if node.kind == 'return' and node.frame.parent is None and \
+                node.ast.value is not None:
+            seen[0] += 1
+            if loaded and not valid:
+                return Violation(
+                    'a record whose data was fetched through its backpointer '
+                    'is yielded although nothing compared the oid of the '
+                    'record at the backpointer target with this record\'s '
+                    'oid (_loadBack* does not): in a damaged file a zeroed '
+                    'or foreign target is copied as "object deleted" / as '
+                    'another object\'s data')
+        return st
+
+    vs, stats = explore(g, (False, False), at=at, edge=edge)
+    R.count(stats)
+    R.instance('TransactionRecordIterator.__next__ backpointer branch')
+    R.require(seen[0], '__next__ returns no record')
+    R.require(seen[1] or vs, 'no validated _read_data_header(pos, oid) frame '
+              'reached from __next__')
+    for v in vs:
+        R.violation(v.node, v.message, g, v.path)
+
+
+# ------------------------------------------------------------------ C17.R7
+def _is_hdrlen(e):
+    """23/TRANS_HDR_LEN + ul + dl + el   or   X.headerlen()"""
+    if isinstance(e, ast.Call) and isinstance(e.func, ast.Attribute) and \
+            e.func.attr == 'headerlen':
+        return True
+    if isinstance(e, ast.BinOp) and isinstance(e.op, ast.Add):
+        names = {x.id for x in ast.walk(e) if isinstance(x, ast.Name)} | \
+            {x.attr for x in ast.walk(e) if isinstance(x, ast.Attribute)}
+        if {'ul', 'dl', 'el'} <= names or {'ulen', 'dlen', 'elen'} <= names:
+            return True
+    return False
+
+
+def _is_tlen(e):
+    return (isinstance(e, ast.Name) and e.id in ('tl', 'tlen', 'stl')) or (
+        isinstance(e, ast.Attribute) and e.attr == 'tlen')
+
+
+@rule('C17.R7', 'every reader of the transaction log accepts a transaction '
+      'whose length equals its header length (no data records): the '
+      'length test is strict everywhere', props=['C01'], min_instances=5)
+def r7(R):
+    """Sibling agreement between the validators of a transaction header
+    (open-time scan, sanity check, iterator, packer's checkTxn, recovery
+    tool).  `undoMultiple([])`, or a commit that stored nothing, writes a
+    transaction with tlen == headerlen()."""
+    n = 0
+    for f in R.prog.all_functions():
+        for c in walk_local(f.node):
+            if not (isinstance(c, ast.Compare) and len(c.ops) == 1):
+                continue
+            l, r, op = c.left, c.comparators[0], c.ops[0]
+            if _is_tlen(l) and _is_hdrlen(r):
+                strict = isinstance(op, ast.Lt)
+            elif _is_hdrlen(l) and _is_tlen(r):
+                strict = isinstance(op, ast.Gt)
+            else:
+                continue
+            n += 1
+            R.instance('%s: %s' % (f.short, ast.unparse(c)))
+            if not strict:
+                R.violation(
+                    (f.module.relpath, f.qualname,
+                     ' '.join(ast.unparse(c).split()), c.lineno),
+                    '%s rejects a transaction whose length equals its '
+                    'header length; the other readers (and the writer) '
+                    'accept a transaction without data records, so this '
+                    'reader drops it -- and what the scan finds next'
+                    % f.short, key='transaction length vs header length')
+    R.require(n >= 5, 'expected the length tests of read_index, '
+              '_sane/_check_sanity, FileIterator, checkTxn and fsrecover; '
+              'found %d' % n)
+
+
+# ------------------------------------------------------------------ C17.R8
+@rule('C17.R8', 'the blob-aware copy loop restores a record WITHOUT a blob '
+      'file only if the record is not a blob record or the source has no '
+      'file for it', props=['C12'], min_instances=1)
+def r8(R):
+    f = R.prog.func('ZODB.blob.copyTransactionsFromTo')
+    g, b, F = R.cfg(f, None, max_depth=0)
+    seen = [0]
+
+    def edge(node, st, lab, tgt):
+        notblob, nofile, fname = st
+        a = node.ast
+        if node.kind == 'test' and lab in ('T', 'F'):
+            for e, truth in implied_atoms(a, lab):
+                if isinstance(e, ast.Call) and dotted(e.func) and \
+                        dotted(e.func)[-1] == 'is_blob_record':
+                    notblob = not truth
+                if isinstance(e, ast.Compare) and len(e.ops) == 1 and \
+                        isinstance(e.left, ast.Name) and \
+                        e.left.id == 'blobfilename' and isinstance(
+                            e.comparators[0], ast.Constant) and \
+                        e.comparators[0].value is None:
+                    isnone = isinstance(e.ops[0], ast.Is) == truth
+                    if fname == 'set' and isnone:
+                        return PRUNE
+                    if fname == 'none' and not isnone:
+                        return PRUNE
+        if node.kind == 'stmt' and isinstance(a, ast.Assign) and any(
+                isinstance(t, ast.Name) and t.id == 'blobfilename'
+                for t in a.targets):
+            if lab in ('e', 'eb'):
+                if isinstance(a.value, ast.Call) and dotted(
+                        a.value.func) and dotted(a.value.func)[-1] == \
+                        'loadBlob':
+                    nofile = True
+            elif isinstance(a.value, ast.Constant) and \
+                    a.value.value is None:
+                notblob, nofile, fname = False, False, 'none'
+            else:
+                fname = 'set'
+        return (notblob, nofile, fname)
+
+    def at(node, st):
+        notblob, nofile, fname = st
+        for op in F.ops(node):
+            if op.kind == 'call' and op.path and op.path[-1] == 'restore':
+                seen[0] += 1
+                if not (notblob or nofile):
+                    return Violation(
+                        'restore() (no blob file) is reached for a record '
+                        'that was not found to be a non-blob record and '
+                        'whose blob file was not looked up and found '
+                        'missing: blob files are keyed by (oid, tid of THIS '
+                        'record), also for undo records, so the copy has '
+                        'the record but loadBlob fails')
+        return st
+
+    vs, stats = explore(g, (False, False, 'none'), at=at, edge=edge)
+    R.count(stats)
+    R.instance('copyTransactionsFromTo: restore vs restoreBlob')
+    R.require(seen[0] or vs, 'no restore() call in copyTransactionsFromTo')
+    for v in vs:
+        R.violation(v.node, v.message, g, v.path)
